@@ -20,12 +20,9 @@ IsPrime(n) ==
      ELSE IF n < 65536 THEN \A d \in SmallPrimes : n % d # 0
      ELSE \A d \in 2..46340 : d >= n \/ n % d # 0
 
-(* the primes of the closed interval [lo, hi], increasing *)
-RECURSIVE PrimesFrom(_, _)
-PrimesFrom(lo, hi) ==
-  IF lo > hi THEN <<>>
-  ELSE IF IsPrime(lo) THEN <<lo>> \o PrimesFrom(lo + 1, hi) ELSE PrimesFrom(lo + 1, hi)
-PrimesIn(lo, hi) == PrimesFrom(IF lo < 2 THEN 2 ELSE lo, hi)
+(* the primes of the closed interval [lo, hi], increasing (no recursion over the interval: it may be wide) *)
+PrimesIn(lo, hi) == LET S == {n \in lo..hi : IsPrime(n)}
+                    IN [i \in 1..Cardinality(S) |-> CHOOSE p \in S : Cardinality({q \in S : q < p}) = i - 1]
 
 (* ------------------------------------------------------- Z_p, p < 2^16 *)
 Red(n, p)     == n % p                      \* residue of any TLC integer (TLA+ % is the mathematical one)
